@@ -650,11 +650,11 @@ def run(ctx):
     ctx.extra["corpus_cases"] = len(cases)
     # every implementation first (targeted stream), then free generation, then compositions
     for k in G.KINDS:
-        for _ in range(ctx.n(2, 15)):
+        for _ in range(ctx.n(2, 10)):
             cases.append(gen_plain(rng, k))
-    for _ in range(ctx.n(16, 150)):
+    for _ in range(ctx.n(16, 100)):
         cases.append(gen_plain(rng))
-    for _ in range(ctx.n(25, 250)):
+    for _ in range(ctx.n(25, 180)):
         cases.append(gen_composed(rng))
     # JAX work in forked workers (forked before this process imports jax)
     nw = int(os.environ.get("C12_WORKERS", "4" if ctx.quick else "6"))
